@@ -173,3 +173,78 @@ func init() {
 		panic(targetPanic{Iface{T: m.P.rtErr, V: CStr("reflect: call of reflect.Value.IsNil on " + iv.T.String() + " Value")}})
 	})
 }
+
+// ---- sync.Map model: an association list; key comparison forks on symbolic keys ----
+
+type syncMapEntry struct{ k, v Iface }
+type syncMapState struct{ ents []syncMapEntry }
+
+func (m *Machine) sideSyncMap(p *Value) *syncMapState {
+	if s, ok := m.side[p]; ok {
+		return s.(*syncMapState)
+	}
+	s := &syncMapState{}
+	m.side[p] = s
+	return s
+}
+
+func (m *Machine) syncMapFind(s *syncMapState, k Iface) int {
+	for i, e := range s.ents {
+		if m.decide(m.equals(nil, e.k, k)) {
+			return i
+		}
+	}
+	return -1
+}
+
+func init() {
+	reg("(*sync.Map).Load", func(m *Machine, fr *frame, a []Value) Value {
+		s := m.sideSyncMap(a[0].(*Value))
+		if i := m.syncMapFind(s, a[1].(Iface)); i >= 0 {
+			return Tuple{s.ents[i].v, TTrue}
+		}
+		return Tuple{Iface{}, TFalse}
+	})
+	reg("(*sync.Map).Store", func(m *Machine, fr *frame, a []Value) Value {
+		s := m.sideSyncMap(a[0].(*Value))
+		if i := m.syncMapFind(s, a[1].(Iface)); i >= 0 {
+			s.ents[i].v = a[2].(Iface)
+		} else {
+			s.ents = append(s.ents, syncMapEntry{a[1].(Iface), a[2].(Iface)})
+		}
+		return nil
+	})
+	reg("(*sync.Map).LoadOrStore", func(m *Machine, fr *frame, a []Value) Value {
+		s := m.sideSyncMap(a[0].(*Value))
+		if i := m.syncMapFind(s, a[1].(Iface)); i >= 0 {
+			return Tuple{s.ents[i].v, TTrue}
+		}
+		s.ents = append(s.ents, syncMapEntry{a[1].(Iface), a[2].(Iface)})
+		return Tuple{a[2].(Iface), TFalse}
+	})
+	del := func(m *Machine, fr *frame, a []Value) Value {
+		s := m.sideSyncMap(a[0].(*Value))
+		if i := m.syncMapFind(s, a[1].(Iface)); i >= 0 {
+			v := s.ents[i].v
+			s.ents = append(append([]syncMapEntry(nil), s.ents[:i]...), s.ents[i+1:]...)
+			return Tuple{v, TTrue}
+		}
+		return Tuple{Iface{}, TFalse}
+	}
+	reg("(*sync.Map).LoadAndDelete", del)
+	reg("(*sync.Map).Delete", func(m *Machine, fr *frame, a []Value) Value { del(m, fr, a); return nil })
+	reg("(*sync.Map).Range", func(m *Machine, fr *frame, a []Value) Value {
+		s := m.sideSyncMap(a[0].(*Value))
+		for _, e := range append([]syncMapEntry(nil), s.ents...) {
+			r := m.call(fr, token.NoPos, a[1], []Value{e.k, e.v}).(*Term)
+			if !m.decide(r) {
+				break
+			}
+		}
+		return nil
+	})
+	reg("(*sync.Map).Clear", func(m *Machine, fr *frame, a []Value) Value {
+		m.sideSyncMap(a[0].(*Value)).ents = nil
+		return nil
+	})
+}
